@@ -143,3 +143,26 @@ func labelsOfKey(k schema.SchemaKey) []schema.LabelDependent {
 	}
 	return kj.Labels
 }
+
+// LiteralKey: the key of an object item when it is written literally (bare identifier or quoted
+// string without interpolation).
+func LiteralKey(k hclsyntax.Expression) (string, bool) {
+	ke, ok := k.(*hclsyntax.ObjectConsKeyExpr)
+	if !ok {
+		return "", false
+	}
+	switch w := ke.Wrapped.(type) {
+	case *hclsyntax.ScopeTraversalExpr:
+		if len(w.Traversal) == 1 && !ke.ForceNonLiteral {
+			return w.Traversal.RootName(), true
+		}
+	case *hclsyntax.TemplateExpr:
+		if w.IsStringLiteral() {
+			v, _ := w.Value(nil)
+			if v.IsKnown() && !v.IsNull() {
+				return v.AsString(), true
+			}
+		}
+	}
+	return "", false
+}
